@@ -17,6 +17,9 @@ var fdFormulas = []struct {
 }{{"Forward", fd.Forward}, {"Backward", fd.Backward}, {"Central", fd.Central}, {"Central2nd", fd.Central2nd}, {"Forward2nd", fd.Forward2nd}, {"Backward2nd", fd.Backward2nd},
 	// a user formula whose stencil is the origin alone: legal (it passes the
 	// package's formula check), useless, and it must still return
+	// zero-weight points are legal and change nothing
+	{"central with a zero-weight origin", fd.Formula{Stencil: []fd.Point{{Loc: -1, Coeff: -0.5}, {Loc: 0, Coeff: 0}, {Loc: 1, Coeff: 0.5}}, Derivative: 1, Step: 0.25}},
+	{"central second difference with a zero-weight point", fd.Formula{Stencil: []fd.Point{{Loc: -1, Coeff: 1}, {Loc: 0, Coeff: -2}, {Loc: 1, Coeff: 1}, {Loc: 2, Coeff: 0}}, Derivative: 2, Step: 0.25}},
 	{"origin only (first derivative)", fd.Formula{Stencil: []fd.Point{{Loc: 0, Coeff: 1}}, Derivative: 1, Step: 0.5}},
 	{"origin only (second derivative)", fd.Formula{Stencil: []fd.Point{{Loc: 0, Coeff: 1}}, Derivative: 2, Step: 0.5}}}
 
@@ -115,12 +118,18 @@ func drawFD(t *simrt.Tape) *fdInst {
 		in.formula = t.Choose(simrt.KWorkload, 6)
 	case 1, 2, 3, 5:
 		in.formula = t.Choose(simrt.KWorkload, 3) // first-derivative formulas (documented requirement)
-		if t.Choose(simrt.KWorkload, 12) == 11 {
+		switch t.Choose(simrt.KWorkload, 12) {
+		case 11:
+			in.formula = 8
+		case 10:
 			in.formula = 6
 		}
 	default:
 		in.formula = 3 + t.Choose(simrt.KWorkload, 3) // second-derivative formulas
-		if t.Choose(simrt.KWorkload, 12) == 11 {
+		switch t.Choose(simrt.KWorkload, 12) {
+		case 11:
+			in.formula = 9
+		case 10:
 			in.formula = 7
 		}
 	}
@@ -190,7 +199,7 @@ func runFD(t *simrt.Tape, rc *RunCtx) *Violation {
 	rc.Instance["origin_known"] = in.origin
 	rc.Instance["exact_arithmetic"] = in.exact
 	rc.Instance["callback_scribbles_on_argument"] = in.scribble
-	rc.declare("two_term_gradient_concurrent_inexact_arithmetic", "concurrent_path_taken", "evaluations_overlapped", "origin_known", "gomaxprocs_1_serial_fallback")
+	rc.declare("second_client_with_the_same_formula", "two_term_gradient_concurrent_inexact_arithmetic", "concurrent_path_taken", "evaluations_overlapped", "origin_known", "gomaxprocs_1_serial_fallback")
 
 	argDim := in.dim
 	if in.op == 5 {
@@ -310,9 +319,45 @@ func runFD(t *simrt.Tape, rc *RunCtx) *Violation {
 	rc.Instance["gomaxprocs"] = cfg.GOMAXPROCS
 	cLog := newLog()
 	var got []float64
-	out, v := rc.Sim(prop, t, cfg, func() { got = compute(true, cLog, true); cLog.close() })
+	// In half of the runs a second client differentiates another function at
+	// another point at the same time, with the same Formula value or with nil
+	// settings (the package's default formulas): "independent operations on
+	// disjoint data may be issued from many goroutines at once".
+	twoClients := t.Choose(simrt.KWorkload, 2) == 1
+	otherNil := t.Choose(simrt.KWorkload, 2) == 1
+	var otherGot, otherWant []float64
+	other := func() []float64 {
+		g := func(x []float64) float64 { return 3*x[0]*x[0] - x[0]*x[1] + 0.5*x[1] }
+		var set *fd.Settings
+		if !otherNil && form.f.Derivative == 1 {
+			set = &fd.Settings{Formula: form.f}
+		}
+		return fd.Gradient(nil, g, []float64{0.5, -1.25}, set)
+	}
+	if twoClients {
+		rc.probe("second_client_with_the_same_formula", 1)
+		otherWant = other()
+	}
+	out, v := rc.Sim(prop, t, cfg, func() {
+		if twoClients {
+			var wg simrt.WaitGroup
+			wg.Add(1)
+			simrt.Go(9400, func() { defer wg.Done(); otherGot = other() })
+			defer wg.Wait()
+		}
+		got = compute(true, cLog, true)
+		cLog.close()
+	})
 	if v != nil {
 		return v
+	}
+	if twoClients {
+		rc.oracle("second-client-answer")
+		for i := range otherWant {
+			if len(otherGot) != len(otherWant) || math.Float64bits(otherGot[i]) != math.Float64bits(otherWant[i]) {
+				return &Violation{prop, "fd/second-client-differs", fmt.Sprintf("a second client's fd.Gradient (nil settings: %v) gives %v while %s (%s) runs in another goroutine, %v alone", otherNil, otherGot, name, form.name, otherWant)}
+			}
+		}
 	}
 	rc.oracle("no-evaluation-after-return")
 	if cLog.late > 0 {
@@ -355,9 +400,16 @@ func runFD(t *simrt.Tape, rc *RunCtx) *Violation {
 	if cLog.n != sLog.n {
 		return &Violation{prop, "fd/call-count", fmt.Sprintf("%s (%s, origin known: %v): f was called %d times with Concurrent, %d times serially", name, form.name, in.origin, cLog.n, sLog.n)}
 	}
-	usesOrigin := false
+	usesOrigin, pos, neg := false, false, false
 	for _, p := range form.f.Stencil {
 		usesOrigin = usesOrigin || p.Loc == 0
+		pos = pos || p.Loc > 0
+		neg = neg || p.Loc < 0
+	}
+	if pos && neg {
+		// x+h-h: a second-order routine reaches the origin through two
+		// offsets as well; that call is not the origin term
+		usesOrigin = false
 	}
 	// (a stencil without the origin can still reach it: x+h-h in a second
 	// order formula; those calls are not the origin term)
